@@ -312,4 +312,118 @@ theorem cycleK_spec_run {α} [BEq α] [LawfulBEq α] (sem spec : Nat → List α
         (by rw [← ih (fun j hj => hstep j (Nat.lt_succ_of_lt hj))]; exact hv)]
       rw [hrun (k + 1), iter_succ', ← hrun k]
 
+/-! ### the driver's executable oracle function `KV.iterState` -/
+
+theorem sPosTable_some_lt (net : Net) (n p : Nat) (h : net.sPosTable.getD n none = some p) : p < net.sNodes.length := by
+  by_cases hn : n < net.nodes.size
+  · rw [sPosTable_getD net hn] at h
+    exact (sPosIn_some' _ _ _ h).1
+  · unfold Net.sPosTable at h
+    simp only [Array.getD_eq_getD_getElem?, List.getElem?_toArray, List.getElem?_map] at h
+    rw [List.getElem?_eq_none (by simpa using hn)] at h
+    cases h
+
+/-- the default value of the assignment list plays no role in the acceptance check -/
+theorem consistentB_asg_default {α} [BEq α] (net : Net) (z : α) (neg : α → α) (prim : String → α → α → α → α → α)
+    (a : List α) (ha : a.length = net.sNodes.length) (d d' : α) (v : Array α) :
+    consistentB net z neg prim (fun p => a.getD p d) v = consistentB net z neg prim (fun p => a.getD p d') v := by
+  apply consistentB_congr_asg
+  intro l p _ hsp
+  have hp := sPosTable_some_lt net _ p hsp
+  rw [List.getD_eq_getElem?_getD, List.getD_eq_getElem?_getD, List.getElem?_eq_getElem (by omega)]
+  rfl
+
+/-- the specification's next-state function with the evaluator's labelling, on assignment lists -/
+def specF (net : Net) (l : List Bool) : List Bool :=
+  nextStateFrom net false (evalAll net false (!·) prim2 (fun j => l.getD j false)) l
+
+theorem specF_length (net : Net) (l : List Bool) : (specF net l).length = l.length := by
+  simp [specF, nextStateFrom]
+
+theorem iter_specF_length (net : Net) (k : Nat) (l : List Bool) : (iter (specF net) k l).length = l.length := by
+  induction k generalizing l with
+  | zero => rfl
+  | succ k ih => show (iter (specF net) k (specF net l)).length = _; rw [ih, specF_length]
+
+/-- the materialised next state of `iterState` is `specF` -/
+theorem nextState_list (net : Net) (l : List Bool) (hl : l.length = net.sNodes.length) :
+    (List.range net.sNodes.length).map (nextState net (fun j => l.getD j false)) = specF net l := by
+  apply List.ext_getElem
+  · simp [specF_length, hl]
+  · intro j h1 h2
+    have hj : j < net.sNodes.length := by simpa using h1
+    rw [List.getElem_map, List.getElem_range, nextState_eq_from_main net _ j hj]
+    have hr : (List.range net.sNodes.length).map (fun j => l.getD j false) = l := by
+      apply List.ext_getElem
+      · simp [hl]
+      · intro i a1 a2
+        simp [List.getD_eq_getElem?_getD, List.getElem?_eq_getElem a2]
+    rw [hr, List.getD_eq_getElem?_getD]
+    show (specF net l)[j]?.getD false = _
+    rw [List.getElem?_eq_getElem h2]
+    rfl
+
+/-- **`KV.iterState` (what the driver's `eval2` evaluates) is the k-fold iterate of `specF`** -/
+theorem iterState_list (net : Net) (k : Nat) (l : List Bool) (hl : l.length = net.sNodes.length) :
+    iterState net k (fun j => l.getD j false) = fun j => (iter (specF net) k l).getD j false := by
+  induction k generalizing l with
+  | zero => rfl
+  | succ k ih =>
+    show iterState net k (fun j => ((List.range net.sNodes.length).map (nextState net fun j => l.getD j false)).toArray.getD j false) = _
+    rw [nextState_list net l hl]
+    have : (fun j => (specF net l).toArray.getD j false) = fun j => (specF net l).getD j false := by
+      funext j; simp [Array.getD_eq_getD_getElem?, List.getD_eq_getElem?_getD]
+    rw [this, ih (specF net l) (by rw [specF_length, hl])]
+    rfl
+
+/-- the flag `iterAccepted` says: the evaluator's labelling is accepted at every iterate `0 … k` -/
+theorem iterAccepted_list (net : Net) (k : Nat) (l : List Bool) (hl : l.length = net.sNodes.length)
+    (h : iterAccepted net k (fun j => l.getD j false) = true) :
+    ∀ j, j ≤ k → consistentB net false (!·) prim2 (fun p => (iter (specF net) j l).getD p false)
+      (evalAll net false (!·) prim2 (fun p => (iter (specF net) j l).getD p false)) = true := by
+  induction k generalizing l with
+  | zero =>
+    intro j hj
+    have : j = 0 := by omega
+    subst this
+    exact h
+  | succ k ih =>
+    intro j hj
+    have h' : (consistentB net false (!·) prim2 (fun j => l.getD j false) (evalAll net false (!·) prim2 fun j => l.getD j false) &&
+        iterAccepted net k (fun j => ((List.range net.sNodes.length).map (nextState net fun j => l.getD j false)).toArray.getD j false)) = true := h
+    rw [Bool.and_eq_true, nextState_list net l hl] at h'
+    cases j with
+    | zero => exact h'.1
+    | succ j =>
+      have : (fun j => (specF net l).toArray.getD j false) = fun j => (specF net l).getD j false := by
+        funext j; simp [Array.getD_eq_getD_getElem?, List.getD_eq_getElem?_getD]
+      rw [this] at h'
+      exact ih (specF net l) (by rw [specF_length, hl]) h'.2 j (by omega)
+
+/-- **`cycle(k)` = `KV.iterState`**: the 2-valued simulator's `s[0]` after k cycles is, position by position, what the driver's
+executable specification `iterState` (the oracle's expected values) computes — provided the evaluator's labelling is accepted at the
+iterates `0 … k-1` (the flag `iterAccepted` of the driver's `eval2` request for `k-1`) and the constant slot holds 0. -/
+theorem cycleK_iterState (sem : Nat → List Bool → Bool) (heq : ∀ code, KnownCode code → ∀ xs, sem code xs = specL2 code xs)
+    (net : Net) (order : List Nat) (hwf : net.wfB = true) (ho : orderOKB net order = true)
+    (hfk : forksOKB net order = true) (hall : linesDrivenB Gen.kindPrefixes net order = true)
+    (d : Bool) (st : St Bool) (h0 : st.s.s0.length = net.sNodes.length) (h1 : st.s.s1.length = net.sNodes.length)
+    (hz : st.env net.idx.zero = false) (k : Nat)
+    (hacc : k = 0 ∨ iterAccepted net (k - 1) (fun p => st.s.s0.getD p false) = true) (p : Nat) :
+    (cycleK (fun op => sem op.code) (sigOps Gen.kindPrefixes net order false) (tabsOf net false) mergeCopy d k st).s.s0.getD p false =
+      iterState net k (fun p => st.s.s0.getD p false) p := by
+  rw [iterState_list net k _ h0]
+  show _ = (iter (specF net) k st.s.s0).getD p false
+  congr 1
+  have := cycleK_spec_gen sem specL2 heq (!·) prim2 semSpec2 net order hwf ho hfk hall mergeCopy d st h0 h1 k
+    (fun a => evalAll net false (!·) prim2 (fun j => a.getD j false))
+  rw [hz] at this
+  apply this
+  intro j hj
+  rcases hacc with hk | hacc
+  · omega
+  · show consistentB net false (!·) prim2 (fun p => (iter (specF net) j st.s.s0).getD p d)
+      (evalAll net false (!·) prim2 (fun p => (iter (specF net) j st.s.s0).getD p false)) = true
+    rw [consistentB_asg_default net false (!·) prim2 _ (by rw [iter_specF_length, h0]) d false]
+    exact iterAccepted_list net (k - 1) _ h0 hacc j (by omega)
+
 end KV
